@@ -6,7 +6,8 @@ child died in); run_case(case) executes one case against the library in the curr
 "ok" (or another short outcome label); Python exceptions propagate to the caller (they are legal
 outcomes).  Everything that is a buffer is placed in a guard-paged arena (_c17_guard).
 
-Placement letters: E = end-aligned at a guard page, S = start-aligned after a guard page.
+Placement letters: E = end-aligned at a guard page, S = start-aligned after a guard page, O = ending one
+byte before a guard page (only for lengths that are a multiple of 8: gives them an odd start address).
 Output/aliasing letters (where an output= parameter exists):
   r returned value; o separate output buffer, same placement; p separate output buffer, opposite placement;
   i output is the input buffer; v/w output overlaps the input, shifted by one block towards/away from the
@@ -75,7 +76,12 @@ def data(n, off=0):
 
 
 def other(pl):
-    return "S" if pl == "E" else "E"
+    return "E" if pl == "S" else "S"
+
+
+def pls(n):
+    """placements for a data length: E and S always; O (odd address) where E and S both start 8-aligned"""
+    return "ESO" if n and n % 8 == 0 else "ES"
 
 
 def mod(path):
@@ -157,11 +163,12 @@ def family(name):
 
 
 def place_of(case):
-    """placement letter of a case (drives the deep relocation too)"""
+    """placement letter of a case (drives the deep relocation too); None: the case has no caller buffers of its
+    own (EC points, big integers, life cycles) - in deep mode it is then executed under E and under S"""
     for x in case[::-1]:
-        if x == "E" or x == "S":
+        if x == "E" or x == "S" or x == "O":
             return x
-    return "E"
+    return None
 
 
 # ---------------------------------------------------------------------------------------------------
@@ -249,7 +256,7 @@ class Blk(object):
                 for L in lens:
                     if L > 8193 and pre:
                         continue
-                    for pl in "ES":
+                    for pl in pls(L):
                         for al in als:
                             if L > 8193 and al in "pw":
                                 continue
@@ -327,7 +334,7 @@ class Stream(object):
                 for L in lens:
                     if L > 8193 and pre:
                         continue
-                    for pl in "ES":
+                    for pl in pls(L):
                         for al in als:
                             out.append(("stream", t, op, pre, L, pl, al))
             if t[0] != "ARC4":
@@ -446,7 +453,7 @@ class Aead(object):
                 for A in lens:
                     if A > 8193 and pre:
                         continue
-                    for pl in "ES":
+                    for pl in pls(A):
                         out.append(("aead", t, "aad", pre, A, pl))
             # several components / update calls with guard-paged views
             for a1 in (0, 1, 15, 16, 17):
@@ -464,7 +471,7 @@ class Aead(object):
                 for L in lens:
                     if L > 8193 and pre:
                         continue
-                    for pl in "ES":
+                    for pl in pls(L):
                         for al in als:
                             if L > 8193 and al in "pvw":
                                 continue
@@ -482,7 +489,7 @@ class Aead(object):
             else:
                 als = ("r", "o", "i", "w")
             for L in lens:
-                for pl in "ES":
+                for pl in pls(L):
                     for al in als:
                         if L > 8193 and al in "pvw":
                             continue
